@@ -14,6 +14,19 @@ from unittest import mock
 from .core import Opaque, prog
 
 
+def preload():
+    """Import every repository module before anything is patched (replay mode patches module
+    attributes such as threading.Thread, which must not be in place while a module body runs)."""
+    import importlib
+    for name in ("mysensors", "mysensors.gateway_mqtt", "mysensors.gateway_serial",
+                 "mysensors.gateway_tcp", "mysensors.persistence", "mysensors.ota",
+                 "mysensors.task", "mysensors.transport", "mysensors.handler"):
+        importlib.import_module(name)
+    for v in ("1.4", "1.5", "2.0", "2.1", "2.2"):
+        from mysensors.const import get_const
+        get_const(v)
+
+
 class Token:
     def __init__(self, name):
         self.name = name
@@ -133,12 +146,30 @@ class FakeTimer:
         self.cancelled = True
 
 
+class FakeThread:
+    """threading.Thread: recorded; the target runs when the harness asks for it."""
+
+    __symex_native__ = True
+
+    def __init__(self, env, target, args):
+        self.env, self.target, self.args = env, target, tuple(args)
+        self.started = False
+        self.daemon = False
+
+    def start(self):
+        self.started = True
+
+    def run_now(self):
+        return self.env.w.call(self.target, *self.args)
+
+
 class Env:
     """Base environment: clock tokens, timegm as an uninterpreted function of the token, logging
     helpers silenced."""
 
     def __init__(self, w):
         self.w = w
+        preload()
         self.local = Token("time.localtime()")
         self.gmt = Token("time.gmtime()")
         self._timegm = {}
@@ -158,6 +189,8 @@ class Env:
         import threading
         self.timers = []
         self.add(threading.Timer, self.make_timer, "threading.Timer")
+        self.threads = []
+        self.add(threading.Thread, self.make_thread, "threading.Thread")
         self.on_async_sleep = None
         self.loop = FakeLoop(self)
         self.async_sleeps = []
@@ -197,11 +230,19 @@ class Env:
     def time(self, a, k):
         """time.time(): an arbitrary non-decreasing instant."""
         w = self.w
+        if getattr(self, "frozen", None) is not None:
+            self.clock_reads += 1
+            return self.frozen
         t = w.fresh_real(f"t{self.clock_reads}", 0)
         self.clock_reads += 1
         if self.now is not None:
             w.assume_fast(w.le(self.now, t))
         self.now = t
+        return t
+
+    def make_thread(self, a, k):
+        t = FakeThread(self, k.get("target"), k.get("args", ()))
+        self.threads.append(t)
         return t
 
     def make_timer(self, a, k):
